@@ -140,7 +140,10 @@ def find_item(toks, path):
     start = end = None
     for depth, comp in enumerate(path):
         comp = comp.strip()
-        kind, _, rest = comp.partition(' ')
+        if comp.startswith('impl') and comp[4:5] in ('<', ' '):
+            kind, rest = 'impl', comp[4:]
+        else:
+            kind, _, rest = comp.partition(' ')
         want = kind + ' ' + _norm(rest)
         # optional "#n" suffix selects the n-th match (1-based)
         nth = 1
@@ -597,6 +600,31 @@ def r7b_struct_pub(toks, counts):
     return out
 
 
+def r18_dyn_auto_traits(toks, counts):
+    """`dyn Trait + Send (+ Sync)` -> `dyn Trait`: auto-trait markers on trait objects carry no behaviour"""
+    out = []
+    n = len(toks)
+    i = 0
+    in_dyn = 0
+    while i < n:
+        t = toks[i]
+        if is_id(t, 'dyn'):
+            in_dyn = 1
+        elif in_dyn and t[0] == 'p' and t[1] in '>),;{=':
+            in_dyn = 0
+        if in_dyn and is_p(t, '+'):
+            nx = next_sig(toks, i + 1)
+            if nx < n and toks[nx][0] == 'id' and toks[nx][1] in ('Send', 'Sync'):
+                while out and out[-1][0] == 'ws':
+                    out.pop()
+                counts['R18'] = counts.get('R18', 0) + 1
+                i = nx + 1
+                continue
+        out.append(t)
+        i += 1
+    return out
+
+
 def r12_context(toks, counts):
     out = []
     i = 0
@@ -958,6 +986,73 @@ def r16_into(toks, counts):
     return out
 
 
+def r17_flatten_options(toks, counts):
+    """`E.iter().filter_map(|x| *x).collect()` -> `flatten_options(&E)`: the Some-values of a list of options"""
+    out = []
+    i = 0
+    n = len(toks)
+    pat = ['.', 'iter', '(', ')', '.', 'filter_map', '(', '|', None, '|', '*', None, ')', '.', 'collect', '(', ')']
+    while i < n:
+        t = toks[i]
+        if is_p(t, '.'):
+            # try to match the pattern on significant tokens
+            j = i
+            ok = True
+            names = []
+            for want in pat:
+                j = next_sig(toks, j)
+                if j >= n:
+                    ok = False
+                    break
+                if want is None:
+                    if toks[j][0] != 'id':
+                        ok = False
+                        break
+                    names.append(toks[j][1])
+                elif toks[j][1] != want:
+                    ok = False
+                    break
+                j += 1
+            if ok and names[0] == names[1]:
+                end = len(out) - 1
+                start = _postfix_start(out, end)
+                recv = out[start:]
+                while recv and recv[-1][0] == 'ws':
+                    recv.pop()
+                del out[start:]
+                out += [('id', 'flatten_options'), ('p', '('), ('p', '&')] + recv + [('p', ')')]
+                counts['R17'] = counts.get('R17', 0) + 1
+                i = j
+                continue
+        out.append(t)
+        i += 1
+    return out
+
+
+def r19_box_as_mut(toks, counts):
+    """`X.as_mut()` -> `&mut *X` for a simple identifier X holding a Box (opt-in; the definition of Box::as_mut)"""
+    out = []
+    i = 0
+    n = len(toks)
+    while i < n:
+        t = toks[i]
+        if t[0] == 'id':
+            a = next_sig(toks, i + 1)
+            b = next_sig(toks, a + 1) if a < n else n
+            c = next_sig(toks, b + 1) if b < n else n
+            d = next_sig(toks, c + 1) if c < n else n
+            p = prev_sig(toks, i - 1)
+            if d < n and is_p(toks[a], '.') and is_id(toks[b], 'as_mut') and is_p(toks[c], '(') and is_p(toks[d], ')') \
+                    and not (p >= 0 and is_p(toks[p], '.')):
+                out += [('p', '&'), ('id', 'mut'), ('ws', ' '), ('p', '*'), t]
+                counts['R19'] = counts.get('R19', 0) + 1
+                i = d + 1
+                continue
+        out.append(t)
+        i += 1
+    return out
+
+
 def r9_enumerate(toks, counts):
     """`for (i, P) in E.enumerate() { B }`            ->  `{ let mut i: usize = 0; for P in E { B i += 1; } }`
        `for (i, P) in E.enumerate().skip(N) { B }`    ->  same with the body guarded by `if i >= N { B }`
@@ -1091,11 +1186,16 @@ def extract_region(src_text, path, opts=None):
         elif r == 'R7':
             item = r7_visibility(item, counts)
             item = r7b_struct_pub(item, counts)
+            item = r18_dyn_auto_traits(item, counts)
         elif r == 'R13':
             if 'R9' in opts.get('rules', ()):
                 item = r9_enumerate(item, counts)
             if 'R16' in opts.get('rules', ()):
                 item = r16_into(item, counts)
+            if 'R17' in opts.get('rules', ()):
+                item = r17_flatten_options(item, counts)
+            if 'R19' in opts.get('rules', ()):
+                item = r19_box_as_mut(item, counts)
             item = r13_binders(item, counts)
     if 'R10' in opts.get('rules', ()):
         item = r10_trailing_continue(item, counts)
